@@ -138,8 +138,11 @@ Trimmed(W) == {m \in W : \A x \in W : x.inst <= m.inst}
 \*       fin     newest certificate instance handed to the runner in this process lifetime (-1: none)
 \*       self    selfMessages
 \*       replay  the messages replayed to the participant by the last transition
-\*       sched   the last start computed by the runner: [set, cert, store, head, now, start]]
+\*       sched   the last start computed by the runner: [set, start, ok]; ok = the promises of the code's comments
+\*               (P_AfterBase, P_Alignment) hold for it]
 NoSched == [set |-> FALSE]
+Sched(c, store, head, now, mf, at) ==
+  [set |-> TRUE, start |-> at, ok |-> (P_AfterBase(c, head, now, mf, at) /\ P_Alignment(c, store, head, now, mf, at))]
 Fresh(W) == [cur |-> 0, inInst |-> FALSE, alarm |-> -1, fin |-> -1, self |-> Trimmed(W), replay |-> <<>>, sched |-> NoSched]
 
 ReplayOf(rs, i) == SortMsgs({m \in rs.self : m.inst = (IF Dev = "replay_next" THEN i + 1 ELSE i)})
@@ -153,7 +156,7 @@ OnCert(rs, c, store, head, now, mf) ==
     IF ~Ahead(rs, c) THEN r1
     ELSE LET at == NextStart(c, store, head, now, mf) IN
            [StartAt(r1, c.inst + 1, at, now) EXCEPT
-              !.sched = [set |-> TRUE, cert |-> c, store |-> store, head |-> head, now |-> now, start |-> at]]
+              !.sched = Sched(c, store, head, now, mf, at)]
 
 OnStart(W, store, head, now, mf) ==
   IF store # <<>> /\ Dev # "start_ignores_store" THEN OnCert(Fresh(W), Latest(store), store, head, now, mf)   \* :176-180
@@ -167,7 +170,7 @@ OnBroadcast(rs, m) == [rs EXCEPT !.self = @ \cup {m}, !.replay = <<>>]     \* :4
 OnDecide(rs, c, store2, head, now, mf) ==
   LET at == NextStart(c, store2, head, now, mf) IN
     [rs EXCEPT !.cur = c.inst + 1, !.inInst = FALSE, !.alarm = PMax(now, at), !.fin = PMax(@, c.inst), !.replay = <<>>,
-               !.sched = [set |-> TRUE, cert |-> c, store |-> store2, head |-> head, now |-> now, start |-> at]]
+               !.sched = Sched(c, store2, head, now, mf, at)]
 
 \* ------------------------------------------------------------------ clauses on a runner state
 \* C15_InstanceFollowsFinality: the node never works on (and never derives a proposal / committee for) an instance
@@ -175,7 +178,5 @@ OnDecide(rs, c, store2, head, now, mf) ==
 FollowsFinality(rs, mf) == rs.cur >= rs.fin + 1 /\ rs.cur >= mf.init
 ReplayOK(rs) == /\ \A k \in DOMAIN rs.replay : rs.replay[k].inst = rs.cur
                 /\ IsSorted(rs.replay)
-SchedOK(rs, mf) == rs.sched.set =>
-                     /\ P_AfterBase(rs.sched.cert, rs.sched.head, rs.sched.now, mf, rs.sched.start)
-                     /\ P_Alignment(rs.sched.cert, rs.sched.store, rs.sched.head, rs.sched.now, mf, rs.sched.start)
+SchedOK(rs) == rs.sched.set => rs.sched.ok
 =============================================================================
